@@ -92,6 +92,14 @@ func renderDoc(d Doc, sets [][]JWK) (status int, body []byte, neterr, bodyerr, o
 		body = []byte(`{"keys":{"kty":"RSA","kid":"x"}}`)
 	case "html":
 		body = []byte(`<html><body>maintenance</body></html>`)
+	case "204": // a contentless success status: not a key set
+		status, body = 204, nil
+	case "200empty":
+		body = []byte{}
+	case "200space":
+		body = []byte("  \n")
+	case "201keys": // a key set under a success status other than 200 OK
+		status, body = 201, jwksJSON(sets[d.Set], 0)
 	case "neterr":
 		neterr = true
 	case "bodyerr":
